@@ -194,6 +194,7 @@ def run_worker(binpath, base_args, worker, seed, cases, env, repo,
     start = 0
     restarts = 0
     timeouts = 0
+    crash_keys = {}
     while start < cases:
         hashes = os.path.join(outdir, 'hashes.%d.%d' % (worker, start))
         args = [binpath] + base_args + [
@@ -277,6 +278,11 @@ def run_worker(binpath, base_args, worker, seed, cases, env, repo,
         res.cases_run += crash['case'] - start + 1
         start = crash['case'] + 1
         restarts += 1
+        crash_keys[key] = crash_keys.get(key, 0) + 1
+        if key.startswith('hang:') and crash_keys[key] >= 4:
+            # the same non-termination again and again: enough evidence, every
+            # further occurrence costs a full CPU budget
+            break
         if restarts > max_restarts:
             res.inconclusive.append('worker %d: too many crashes' % worker)
             break
